@@ -36,6 +36,8 @@ type BufConn struct {
 	closeCount int
 	onClose    func()
 	name       string
+	// NoDeadlines makes every Set*Deadline call fail (a transport without deadline support).
+	NoDeadlines bool
 }
 
 type pipeAddr string
@@ -179,7 +181,14 @@ func (c *BufConn) Closed() bool {
 func (c *BufConn) LocalAddr() net.Addr  { return pipeAddr(c.name) }
 func (c *BufConn) RemoteAddr() net.Addr { return pipeAddr("peer-of-" + c.name) }
 
+// ErrNoDeadline is what a connection without deadline support answers (a tunnelled connection, e.g.
+// the channel connections of golang.org/x/crypto/ssh).
+var ErrNoDeadline = errors.New("verif: deadline not supported")
+
 func (c *BufConn) SetDeadline(t time.Time) error {
+	if c.NoDeadlines {
+		return ErrNoDeadline
+	}
 	c.mu.Lock()
 	c.rdDeadline, c.wrDeadline = t, t
 	c.mu.Unlock()
@@ -188,6 +197,9 @@ func (c *BufConn) SetDeadline(t time.Time) error {
 }
 
 func (c *BufConn) SetReadDeadline(t time.Time) error {
+	if c.NoDeadlines {
+		return ErrNoDeadline
+	}
 	c.mu.Lock()
 	c.rdDeadline = t
 	c.mu.Unlock()
@@ -196,6 +208,9 @@ func (c *BufConn) SetReadDeadline(t time.Time) error {
 }
 
 func (c *BufConn) SetWriteDeadline(t time.Time) error {
+	if c.NoDeadlines {
+		return ErrNoDeadline
+	}
 	c.mu.Lock()
 	c.wrDeadline = t
 	c.mu.Unlock()
@@ -222,6 +237,8 @@ type Dialer struct {
 	PipeCap int
 	// FailDial makes the n-th dial (1-based) fail; 0 = never.
 	FailDial int
+	// NoDeadlines: the connections handed out do not support deadlines (every Set*Deadline fails).
+	NoDeadlines bool
 
 	mu       sync.Mutex
 	Sessions []*Session
@@ -242,6 +259,7 @@ func (d *Dialer) DialContext(ctx context.Context, network, address string) (net.
 		return nil, ErrDialRefused
 	}
 	cl, sv := NewBufPipe(d.PipeCap)
+	cl.NoDeadlines = d.NoDeadlines
 	sess := d.Srv.Serve(sv, d.ImplicitTLS)
 	d.mu.Lock()
 	d.Sessions = append(d.Sessions, sess)
